@@ -89,13 +89,14 @@ def go_build(name, tags=True):
 
 
 def sync_alt():
+    """Alt mode: start from an exact copy of /verif/coq (sources, regenerated tables and
+    compiled files, all mutually consistent); the extractor then overwrites only the tables
+    that differ for the alternative tree, and make rebuilds exactly what depends on them."""
     if not ALT:
         return
     os.makedirs(COQ, exist_ok=True)
-    sh(["rsync", "-a", "--delete", "--exclude", "gen/", "--exclude", "Makefile*", "--exclude", ".Makefile.d",
+    sh(["rsync", "-a", "--delete", "--exclude", "Makefile*", "--exclude", ".Makefile.d", "--exclude", "_CoqProject",
         os.path.join(ROOT, "coq") + "/", COQ + "/"])
-    if not os.path.isdir(os.path.join(COQ, "gen")):
-        sh(["rsync", "-a", os.path.join(ROOT, "coq", "gen") + "/", os.path.join(COQ, "gen") + "/"])
 
 
 def write_coqproject():
